@@ -49,6 +49,38 @@ fn observe<const N: usize>(b: &Bitset<N>, want: &[usize]) -> Vec<(String, Value,
     if it != want {
         bad.push(("iter_bits".to_string(), json!(it), json!(want)));
     }
+    // the same enumeration through the other entry points of the Iterator trait (an iterator may override them):
+    // the ascending enumeration of the same set, consumed by nth / skip / step_by / last / count after a few next()
+    for adv in [0usize, 1, 2, 5] {
+        for k in [0usize, 1, 2, 3, 7] {
+            let mut itr = b.iter_bits();
+            for _ in 0..adv {
+                itr.next();
+            }
+            let got = itr.nth(k);
+            let w = want.get(adv + k).cloned();
+            if got != w {
+                bad.push(("iter_bits".to_string(), json!({"after_next_calls": adv, "nth": k, "got": got}), json!(w)));
+            }
+            // and the iterator continues right behind the element nth returned
+            let rest: Vec<usize> = itr.collect();
+            let wrest: Vec<usize> = want.iter().skip(adv + k + 1).cloned().collect();
+            if rest != wrest && bad.len() < 4 {
+                bad.push(("iter_bits".to_string(), json!({"after_next_calls": adv, "nth": k, "rest": rest}), json!(wrest)));
+            }
+        }
+    }
+    for st in [2usize, 3] {
+        let got: Vec<usize> = b.iter_bits().step_by(st).collect();
+        let w: Vec<usize> = want.iter().step_by(st).cloned().collect();
+        if got != w {
+            bad.push(("iter_bits".to_string(), json!({"step_by": st, "got": got}), json!(w)));
+        }
+    }
+    if b.iter_bits().skip(1).collect::<Vec<_>>() != want.iter().skip(1).cloned().collect::<Vec<_>>() || b.iter_bits().last() != want.last().cloned()
+        || b.iter_bits().count() != want.len() || b.iter_bits().min() != want.first().cloned() || b.iter_bits().max() != want.last().cloned() {
+        bad.push(("iter_bits".to_string(), json!("skip(1) / last / count / min / max"), json!(want)));
+    }
     if b.count() != want.len() {
         bad.push(("count".to_string(), json!(b.count()), json!(want.len())));
     }
@@ -76,6 +108,14 @@ fn observe<const N: usize>(b: &Bitset<N>, want: &[usize]) -> Vec<(String, Value,
     }
     if !(b == &same) {
         bad.push(("==".to_string(), json!(false), json!(true)));
+    }
+    // clone_from into a bitset with other contents is a copy
+    let mut cf = Bitset::<N>::new();
+    cf.set(0);
+    cf.set(64 * N - 1);
+    cf.clone_from(b);
+    if !(&cf == b) || cf.iter_bits().collect::<Vec<_>>() != want {
+        bad.push(("clone_from".to_string(), json!(cf.iter_bits().collect::<Vec<_>>()), json!(want)));
     }
     let mut other = same.clone();
     other.flip(64 * N - 1);
